@@ -12,7 +12,11 @@ use crate::cases::gen_case;
 use crate::rng::run_seed;
 use crate::sup::*;
 
-const VERIF: &str = "/verif";
+/// Root of the verification tree (evidence, replays, known findings). `./check` passes the
+/// directory it lives in, so that a snapshot of /verif run elsewhere writes into itself.
+fn verif_root() -> String {
+    std::env::var("RLSIM_ROOT").unwrap_or_else(|_| "/verif".to_string())
+}
 
 #[derive(Clone, Debug, Serialize, Deserialize)]
 pub struct KnownFinding {
@@ -43,7 +47,7 @@ pub struct KnownFile {
 }
 
 pub fn load_known() -> KnownFile {
-    match std::fs::read_to_string(format!("{VERIF}/known_findings.json")) {
+    match std::fs::read_to_string(format!("{}/known_findings.json", verif_root())) {
         Ok(s) => serde_json::from_str(&s).unwrap_or_else(|e| {
             eprintln!("HARNESS-ERROR known_findings.json unreadable: {e}");
             std::process::exit(2);
@@ -255,7 +259,7 @@ pub struct ReplayFile {
 }
 
 pub fn write_replay(name: &str, case: &Case, res: &RunResult, v: &Violation) -> String {
-    let dir = format!("{VERIF}/replays");
+    let dir = format!("{}/replays", verif_root());
     let _ = std::fs::create_dir_all(&dir);
     let path = format!("{dir}/{name}.json");
     let rf = ReplayFile {
@@ -303,7 +307,7 @@ pub fn check(prop: &str, tier: &str) -> i32 {
 
     // 1. witnesses of open known findings: do they still reproduce?
     for f in mine.iter().filter(|f| f.status == "open" && !f.witness.is_empty()) {
-        match replay(&format!("{VERIF}/{}", f.witness)) {
+        match replay(&format!("{}/{}", verif_root(), f.witness)) {
             Ok((true, _, _, _)) => {
                 known_lines.insert(format!(
                     "KNOWN-FINDING: property={} id={} {}",
@@ -453,9 +457,9 @@ pub fn check(prop: &str, tier: &str) -> i32 {
         "wall_s": started.elapsed().as_secs_f64(),
         "violations": new_violations,
     });
-    let _ = std::fs::create_dir_all(format!("{VERIF}/evidence"));
+    let _ = std::fs::create_dir_all(format!("{}/evidence", verif_root()));
     std::fs::write(
-        format!("{VERIF}/evidence/{prop}.json"),
+        format!("{}/evidence/{prop}.json", verif_root()),
         serde_json::to_string_pretty(&ev).unwrap(),
     )
     .expect("write evidence");
